@@ -68,7 +68,7 @@ def contradictory_cases():
             v = ["x"] * ln
             docs.append({"doc": {"opt": v}, "cls": "required", "path": ("req",), "expect": "REJ"})
             docs.append({"doc": {"nul": v, "ok": ["a"]}, "cls": "required", "path": ("req",), "expect": "REJ"})
-        out.append(Case("c07ct%d" % n, root, docs, fam="contradictory-limits/%d>%d" % (mn, mx), no_model=True))
+        out.append(Case("c07ct%d" % n, root, docs, fam="contradictory-limits/%d>%d" % (mn, mx)))
         n += 1
         # without the required array: every key on its own
         root2 = {"type": "object", "properties": {"opt": dict(arr), "nul": dict(arr, type=["array", "null"]), "deep": nested}}
@@ -78,7 +78,7 @@ def contradictory_cases():
             docs2.append({"doc": {"opt": v}, "cls": "items", "path": ("opt",), "expect": "REJ"})
             docs2.append({"doc": {"nul": v}, "cls": "items", "path": ("nul",), "expect": "REJ"})
             docs2.append({"doc": {"deep": [v] * max(ln, 1)}, "cls": "items", "path": ("deep",), "expect": "REJ"})
-        out.append(Case("c07ct%d" % n, root2, docs2, fam="contradictory-limits/%d>%d" % (mn, mx), no_model=True))
+        out.append(Case("c07ct%d" % n, root2, docs2, fam="contradictory-limits/%d>%d" % (mn, mx)))
         n += 1
     return out
 
@@ -112,6 +112,8 @@ def run(ctx):
                     c.fam, json.dumps(d["doc"]), d["expect"], o.get("v")))
                 nct += 1
                 break
+    from vlib.valuecheck import report_tie
+    report_tie(ctx, ct, "array limits")
     evaluate(ctx, cases, CLASSES, {"items": "invalid", "items-valid": "valid", "optional-absent": "by-spec", "null-allowed": "valid", "valid": "valid"},
              "array limits")
     from vlib.valuecheck import replay_findings
